@@ -633,7 +633,8 @@ class Referable(HasExtension, metaclass=abc.ABCMeta):
                         reversed_path.append(f"{item.parent.id_short}[{item.parent.value.index(item)}]")
                         item = item.parent
                     else:
-                        reversed_path.append(item.id_short)
+                        # an ancestor may (still) be without id_short, e.g. a list item that is not in its list yet
+                        reversed_path.append(str(item.id_short))
                     item = item.parent
                 else:
                     raise AttributeError('Referable must have an identifiable as root object and only parents that are '
